@@ -115,6 +115,9 @@ var varintValLens = []int{63, 64, 65, 8191, 8192, 8193, blockSz - 7, 2*blockSz -
 
 func newSwarm(rng *vrt.Rand, ops []string, maxSteps int) *Swarm {
 	s := &Swarm{W: map[string]int{}, ovh: 12, Bulk: bulkShare, ZeroTail: zeroTailRun}
+	if killRun {
+		s.W["kill"] = 1
+	}
 	s.Keys = genKeys(rng, rng.Range(1, 8))
 	for _, o := range ops {
 		if rng.Chance(0.8) {
@@ -1636,5 +1639,33 @@ var zeroTailRun bool
 func init() {
 	for _, p := range []string{"C01", "C02", "C03", "C04", "C06", "C10", "C17", "C18", "C20"} {
 		withZeroTail(p, 0.06)
+	}
+}
+
+// withKill lets a share of a property's sequential runs contain kill steps: the process dies between two operations
+// (half of the time inside a batch), is reopened, and the history - and the property's own oracle - carries on.
+func withKill(prop string, share float64) {
+	gen := generators[prop]
+	generators[prop] = func(c *Case, rng *vrt.Rand, tier string) func(r *Runner, i int) *Op {
+		killRun = rng.Chance(share)
+		defer func() { killRun = false }()
+		g := gen(c, rng, tier)
+		if killRun && prop == "C20" {
+			// After recovering a mapped database that was never closed, the older files keep their 512 MiB
+			// pre-extension (Backup resets them to that size, not to their data) and Backup copies them in full through
+			// memory: the copy is right - checked by hand with the memory guard lifted - but a single run then needs
+			// gigabytes of RAM and tmpfs. No listed property is about that; such runs use standard I/O.
+			c.StdIO = true
+			c.Cfg.IO = 0
+		}
+		return g
+	}
+}
+
+var killRun bool
+
+func init() {
+	for _, p := range []string{"C05", "C06", "C10", "C14", "C15", "C18", "C20"} {
+		withKill(p, 0.2)
 	}
 }
